@@ -551,18 +551,18 @@ theorem ctxRangeText_new (r : Range) : ctxRangeText (newRangeText r) = rangeMid 
 
 /-- printing a line number and reading it back (proved in `Lemmas/Unified`; taken as a hypothesis here) -/
 def NumberRoundtrip : Prop :=
-  ∀ (n : Nat), (n : Int) ≤ i64Max → ∀ (rest : Bytes) (cur : Int),
+  ∀ (n : Nat), (n : Int) ≤ i64Max / 4 → ∀ (rest : Bytes) (cur : Int),
     (∀ c, rest.head? = some c → isDigit c = false) →
     consumeLineNumber (intDigits (n : Int) ++ rest) cur = (true, (n : Int), rest)
 
-theorem number_roundtrip_int (NR : NumberRoundtrip) (i : Int) (h0 : 0 ≤ i) (h1 : i ≤ i64Max) (rest : Bytes) (cur : Int)
+theorem number_roundtrip_int (NR : NumberRoundtrip) (i : Int) (h0 : 0 ≤ i) (h1 : i ≤ i64Max / 4) (rest : Bytes) (cur : Int)
     (hrest : ∀ c, rest.head? = some c → isDigit c = false) :
     consumeLineNumber (intDigits i ++ rest) cur = (true, i, rest) := by
   have := NR i.toNat (by omega) rest cur hrest
   rwa [Int.toNat_of_nonneg h0] at this
 
 /-- a range the writer can print and the parser can read back -/
-def RangeOK (r : Range) : Prop := 0 ≤ r.start ∧ 0 ≤ r.count ∧ r.start + r.count ≤ i64Max
+def RangeOK (r : Range) : Prop := 0 ≤ r.start ∧ 0 ≤ r.count ∧ r.start + r.count ≤ i64Max / 4
 
 theorem parseContextRange_mid (NR : NumberRoundtrip) (r : Range) (hr : RangeOK r) (a b : Int) :
     parseContextRange a b (rangeMid r) = (true, r.start, rangeEnd r) := by
@@ -772,12 +772,13 @@ theorem parseHunk_stages_both (par par1 par2 par3 par4 par5 par6 par7 par8 : Par
     (h9 : par5.getLine = (some l3, par6))
     (h10 : par6.s.eof = false)
     (h11 : startsWith l3.content "**********" = false)
+    (h11' : isToFileLine l3.content = true)
     (h12 : ctxAppendLine [] l3.content l3.newline = .ok new1)
     (h13 : ctxAppendContent (par.s.rest.length + 2) par6 new1 ns ne = .ok (nls, par7))
     (h14 : ctxCheckNoNewline par7 nls = (nls', par8)) :
     parseContextHunk par = .ok (ols', os, nls', ns, par8) := by
   unfold parseContextHunk
-  simp only [h1, h2, h3, h4, h5, h6, h7, h8, h9, h10, h11, h12, h13, h14, Bool.false_eq_true, if_false]
+  simp only [h1, h2, h3, h4, h5, h6, h7, h8, h9, h10, h11, h11', h12, h13, h14, Bool.not_true, Bool.false_eq_true, if_false]
 
 theorem parseHunk_stages_newOmitted (par par1 par2 par3 par4 par5 par6 : Parser) (os oe ns ne : Int) (l1 l2 : Line)
     (l3o : Option Line) (old1 ols ols' : List PatchLine)
@@ -840,7 +841,7 @@ theorem halfLines_cons (t : PatchLine) (ts : List PatchLine) (tail : List Line) 
 theorem parseHunk_both (NR : NumberRoundtrip) (pre : List Line) (hpre : pre = [] ∨ pre = [lfLine starsText])
     (O N : List PatchLine) (oR nR : Range) (hoR : RangeOK oR) (hnR : RangeOK nR)
     (hoc : oR.count = (O.length : Int)) (hnc : nR.count = (N.length : Int)) (hO : O ≠ []) (hN : N ≠ [])
-    (hoops : ∀ l ∈ O, HalfOp l.op) (hnops : ∀ l ∈ N, HalfOp l.op)
+    (hoops : ∀ l ∈ O, HalfOp l.op) (hnops : ∀ l ∈ N, HalfOp l.op) (hnnm : ∀ l ∈ N, l.op ≠ MINUS)
     (tail : List Line) (htail : NoBackslash tail) (n : Nat) :
     ∃ n', parseContextHunk (mkPar (pre ++ ((halvesTexts O oR N nR).map lfLine ++ tail)) n)
       = .ok (readBack O, oR.start, readBack N, nR.start, mkPar tail n') := by
@@ -866,6 +867,14 @@ theorem parseHunk_both (NR : NumberRoundtrip) (pre : List Line) (hpre : pre = []
   have h8 := parseNewRange_new NR nR hnR 0 0
   have h9 := getLine_lf (halfText n1) Y (k2 + 1)
   have h11 := startsWith_half_stars10 n1.op n1.line.content
+  have h11' : isToFileLine (lfLine (halfText n1)).content = true := by
+    have hm := hnnm n1 (by simp)
+    show ((n1.op == SP || n1.op == PLUS || n1.op == BANG) && SP == SP) = true
+    rcases hnops n1 (by simp) with h | h | h | h
+    · rw [h]; decide
+    · rw [h]; decide
+    · exact absurd h hm
+    · rw [h]; decide
   have h12 := appendLine_half [] n1 (hnops n1 (by simp))
   subst hY
   obtain ⟨nls, par7, k3, h13, h14⟩ := read_half N' (fun l hl => hnops l (by simp [hl])) [n1] (lastNone (n1 :: N'))
@@ -875,7 +884,7 @@ theorem parseHunk_both (NR : NumberRoundtrip) (pre : List Line) (hpre : pre = []
     (by simp)
   refine ⟨k3, ?_⟩
   have := parseHunk_stages_both (mkPar (pre ++ lfLine (oldRangeText oR) :: lfLine (halfText o1) :: _) n)
-    _ _ _ _ _ _ _ _ _ _ _ _ _ _ _ _ _ _ _ _ _ (hF.symm ▸ h1) h2 h3 h4 (hF.symm ▸ h5) h6 h7 h8 h9 rfl h11 h12 (hF.symm ▸ h13) h14
+    _ _ _ _ _ _ _ _ _ _ _ _ _ _ _ _ _ _ _ _ _ (hF.symm ▸ h1) h2 h3 h4 (hF.symm ▸ h5) h6 h7 h8 h9 rfl h11 h11' h12 (hF.symm ▸ h13) h14
   exact this
 
 /-- new half omitted: the line after the new range is consumed (the separator) or the input ends -/
@@ -1392,7 +1401,7 @@ theorem writable_spec (h : Hunk) (hw : h.writable = true) :
     (∀ pl ∈ h.lines, pl.op = SP ∨ pl.op = PLUS ∨ pl.op = MINUS) ∧
     h.old.count = ((oldOf h.lines).length : Int) ∧ h.new.count = ((newOf h.lines).length : Int) ∧
     h.lines ≠ [] ∧ (∀ pl ∈ h.lines, plainLine pl.line = true) ∧ noNlOnlyLast h.lines = true ∧
-    0 ≤ h.old.start ∧ 0 ≤ h.new.start ∧ h.old.start + h.old.count ≤ i64Max ∧ h.new.start + h.new.count ≤ i64Max := by
+    0 ≤ h.old.start ∧ 0 ≤ h.new.start ∧ h.old.start + h.old.count ≤ i64Max / 4 ∧ h.new.start + h.new.count ≤ i64Max / 4 := by
   unfold Hunk.writable Hunk.wfB at hw
   simp only [Bool.and_eq_true, List.all_eq_true, Bool.or_eq_true, beq_iff_eq, decide_eq_true_eq,
     Bool.not_eq_true', List.isEmpty_eq_false_iff] at hw
@@ -1545,7 +1554,9 @@ theorem hunk_roundtrip (NR : NumberRoundtrip) (h : Hunk) (hw : h.writable = true
           · simpa using hm
         rw [hall] at hDel'; cases hDel'
       obtain ⟨n', hp⟩ := parseHunk_both NR pre hpre s.oldLines s.newLines h.old h.new hoR hnR hoc' hnc' hO hN
-        (halfOp_of_oldOps hi.oldOps) (halfOp_of_newOps hi.newOps) tail htail.noBackslash n
+        (halfOp_of_oldOps hi.oldOps) (halfOp_of_newOps hi.newOps)
+        (by intro l hl; rcases hi.newOps l hl with h | h | h <;> rw [h] <;> decide)
+        tail htail.noBackslash n
       rw [hrbO, hrbN] at hp
       obtain ⟨h', hh, e1, e2, e3, e4⟩ := hunkFromParts_both h.old.start h.new.start _ _
         (oldOps_normNl hi.oldOps) (newOps_normNl hi.newOps)
